@@ -109,6 +109,11 @@ func (n *Cache) Remove(key uint64) {
 	n.cache.Remove(key)
 }
 
+// MaximumTTL is the longest lease a delegation is ever given, whatever TTLs
+// its parent published. The cache clamps what it stores; the resolver clamps
+// the same deadline before handing it to everything else that inherits it.
+const MaximumTTL = maximumTTL
+
 const (
 	maximumTTL = 12 * time.Hour
 	defaultCap = 1024 * 256
